@@ -719,6 +719,17 @@ fn check_once(c: &Case, ctx: &mut CaseCtx) -> Result<(), Fail> {
             },
             Op::HnswSearch { q, k, mode } => {
                 let q = resolve(c, q);
+                if hx.is_none() && !d.live.is_empty() && d.uniform_dim().is_some() {
+                    // no index held yet: the caller builds one now (default options)
+                    if let Ok((index, mapping)) = eng.build_hnsw_index(HNSWConfig::default()) {
+                        let snap = Snap {
+                            map: d.live.iter().map(|(k, e)| (k.clone(), e.v.clone())).collect(),
+                            dim: d.uniform_dim().unwrap_or(0),
+                            metric: Metric::Cosine,
+                        };
+                        hx = Some(Explicit { index, mapping, snap });
+                    }
+                }
                 let Some(x) = &hx else {
                     ctx.label("skipped: no explicit index");
                     continue;
@@ -1028,9 +1039,6 @@ fn check_once(c: &Case, ctx: &mut CaseCtx) -> Result<(), Fail> {
                 judge(ctx, &s, &Judge { tag: &tag, q, k, metric: om }, &mode, &res, Some(f))?;
             },
         }
-        if ctx.known_hit() {
-            ctx.label("known finding hit");
-        }
     }
 
     // final sweep: everything stored reads back exactly; nothing else is listed
@@ -1145,8 +1153,8 @@ fn main() {
             "tie order depends on the product's hash-map scan order (random per process); predicates accept every tie order",
         ],
         parts: vec![
-            PropPart::new("ops", 60_000, 3_000_000, gen::ops_strategy, check).shrink_iters(30000).boxed(),
-            PropPart::new("bulk", 4_000, 150_000, gen::bulk_strategy, check).shrink_iters(20000).boxed(),
+            PropPart::new("ops", 60_000, 3_000_000, gen::ops_strategy, check).shrink_iters(12000).boxed(),
+            PropPart::new("bulk", 4_000, 150_000, gen::bulk_strategy, check).shrink_iters(2500).boxed(),
         ],
         children: vec![],
     });
